@@ -505,7 +505,7 @@ ostep!(n_k1h2_c0, Cfg { kind: 1, h: 2, d: 3, cur: 0, depth: [2, 0, 0, 1, 0, 0], 
 // @h prop=C10 unwind=10 rec=3 cutfmt=num uw=same_output.0:25;exit_model.0:25;exit.0:25;push.0:17;write.0:17 timeout=3600 mem=12 tier=thorough what=형!_with_stdin_selected
 ostep!(n_area_e_c0, Cfg { kind: 0, h: 1, d: 1, cur: 0, area: 4, depth: [1, 0, 0, 1, 0, 0], ..CFG0 });
 
-// @h prop=C02 unwind=10 rec=2 cutfmt=1 uw=same_output.0:25;exit_model.0:25;exit.0:25;push.0:17;write.0:17 timeout=14400 mem=24 tier=thorough kind=stretch what=heart_with_one_label_entry(symbolic_id)_registered_at_a_LATER_location:forward_jump_leaves_the_prefix(commit)_or_new_registration
+// @h prop=C02 unwind=10 rec=2 cutfmt=1 uw=same_output.0:25;exit_model.0:25;exit.0:25;push.0:17;write.0:17 timeout=1800 mem=12 tier=thorough kind=stretch what=heart_with_one_label_entry(symbolic_id)_registered_at_a_LATER_location:forward_jump_leaves_the_prefix(commit)_or_new_registration
 ostep!(o_heart_fwd, Cfg { kind: 0, h: 1, d: 2, area: 1, npts: 1, pts_fixed_loc: Some(NCODE + 2), depth: [0, 0, 0, 1, 0, 0], ..CFG0 });
 // @h prop=C02 unwind=10 rec=2 cutfmt=1 uw=same_output.0:25;exit_model.0:25;exit.0:25;push.0:17;write.0:17 timeout=3600 mem=12 what=핫_with_zero_dots_in_pre-execution
 ostep!(o_mul_to0, Cfg { kind: 2, h: 2, d: 0, depth: [1, 0, 0, 2, 0, 0], ..CFG0 });
